@@ -2,6 +2,7 @@ from checks.common import Build, Job
 
 PROP = "C13"
 BUILDS = [Build("df_spec", "harness/c13_defer.c", flavor="spec"),
+          Build("df_spec_wb", "harness/c13_defer.c", flavor="spec", whitebox=True),
           Build("df_memb", "harness/c13_defer.c", flavor="memb"),
           Build("df_qsbr", "harness/c13_defer.c", flavor="qsbr")]
 RULE = ("(a) every operation sequence of length len over {defer_rcu(f,p) for 3 functions (one at an odd address) x 4 argument "
@@ -23,6 +24,9 @@ def jobs(tier):
     J.append(Job(S, "seq", "0,0,0,0", dict(p8, len=4 if q else 5), workers=16))
     J.append(Job(S, "seq", "1,0,0,0", dict(p8, len=2 if q else 3), workers=8))
     J.append(Job(S, "seq", "0,0,0,0", {"defer_queue_size": 16, "len": 3}, workers=8))
+    # non-initial start state: queue indices a few slots before the wrap-around of the unsigned long counters
+    for sid in (-3, -6):
+        J.append(Job("df_spec_wb", "seq", "0,0,0,0", dict(p8, len=3 if q else 4, start_idx=sid), workers=8))
     J.append(Job(S, "background", "2,0,0,0" if q else "3,0,0,0", p8, workers=8))
     J.append(Job(S, "background", "1,1,0,0" if q else "2,1,0,0", p8, workers=8))
     J.append(Job(S, "background", "1,0,1,0" if q else "2,0,1,0", p8, workers=8))
